@@ -85,7 +85,7 @@ Proof.
   - destruct (bytes_eqb b einvalid_body); cbn; try discriminate.
     destruct (json_parse b) as [info|]; cbn; try discriminate.
     intros H.
-    pose proof (send_all_alive c rc (k1 <| k_info := info |>) G1 G2) as S. cbn in S.
+    pose proof (send_all_alive c rc (k1 <| k_info ::= (fun known => known || info) |>) G1 G2) as S. cbn in S.
     destruct (S H) as (A & B & T & C). destruct (E A) as (A' & B' & T' & _).
     split; auto. split; [|split; [cbn in T; congruence|auto]]. rewrite B. cbn. rewrite B'. reflexivity.
   - intros H. destruct (E H) as (_ & _ & _ & b & Hb). discriminate.
@@ -101,7 +101,7 @@ Proof.
   destruct (exchange c CIdentify k) as [k1 [b| |]]; cbn in *; try tauto.
   destruct (bytes_eqb b einvalid_body); cbn; try tauto.
   destruct (json_parse b) as [info|]; cbn; try tauto.
-  pose proof (send_all_frame c rc (k1 <| k_info := info |>)) as S. cbn in S.
+  pose proof (send_all_frame c rc (k1 <| k_info ::= (fun known => known || info) |>)) as S. cbn in S.
   destruct S as (A & B & C & D). destruct F as (A' & B' & C' & _ & D'). repeat split; congruence.
 Qed.
 
